@@ -205,6 +205,11 @@ func Values(level int) []*rdbgen.Value {
 	add(rdbgen.ZSetZiplistVal(zs[:2], false, false), "1")
 	add(rdbgen.ZSetZiplistVal(zs, false, false), "6")
 	add(rdbgen.ZSetZiplistVal(zs, true, true), "6-wide-lzf")
+	// score texts as Redis writes them (%.17g): negative zero, integers, exponents
+	zt := []rdbgen.ZE{{Enc: "s6", S: []byte("nz")}, {Enc: "s6", S: []byte("-0")}, {Enc: "s6", S: []byte("z")}, {Enc: "i4", I: 0},
+		{Enc: "s6", S: []byte("big")}, {Enc: "s6", S: []byte("9007199254740993")}, {Enc: "s6", S: []byte("tiny")}, {Enc: "s6", S: []byte("4.9406564584124654e-324")},
+		{Enc: "s6", S: []byte("neg")}, {Enc: "i64", I: -9007199254740993}, {Enc: "s6", S: []byte("frac")}, {Enc: "s6", S: []byte("-0.10000000000000001")}}
+	add(rdbgen.ZSetZiplistVal(zt, false, false), "score-texts")
 	// intsets
 	add(rdbgen.IntsetVal(nil, 2, false), "0")
 	add(rdbgen.IntsetVal([]int64{-32768, -1, 0, 32767}, 2, false), "4")
